@@ -1,0 +1,8 @@
+//go:build !verif
+
+package xds
+
+// verifGate marks the boundaries of the registration window of initConnection for the verification
+// harness (see zz_verif_e2e.go, build tag verif). Without the tag it is this empty function, which
+// the compiler inlines away.
+func verifGate(string) {}
